@@ -118,6 +118,8 @@ type Contracts struct {
 	Regions  map[string]string // type name -> region
 	Guarded  map[string]string // field key "T.f" -> mutex field "T.m"
 	Monotone map[string]bool   // "T.f": boolean field that never goes from true to false
+	Callers  map[string][]string // callee name -> functions allowed to call it
+	CallersProps map[string][]string
 	Writers  map[string][]string // heap key -> functions allowed to write it directly
 	WritersProps map[string][]string
 	Lines    int
@@ -125,7 +127,7 @@ type Contracts struct {
 
 func ParseContractsFile(path string) (*Contracts, error) {
 	cs := &Contracts{Path: path, Funcs: map[string]*FuncContract{}, TypeInvs: map[string]*TypeInv{},
-		Specs: map[string]*SpecFn{}, Ghosts: map[string]*GhostVar{}, Regions: map[string]string{}, Guarded: map[string]string{}, Monotone: map[string]bool{}, Writers: map[string][]string{}, WritersProps: map[string][]string{}}
+		Specs: map[string]*SpecFn{}, Ghosts: map[string]*GhostVar{}, Regions: map[string]string{}, Guarded: map[string]string{}, Monotone: map[string]bool{}, Callers: map[string][]string{}, CallersProps: map[string][]string{}, Writers: map[string][]string{}, WritersProps: map[string][]string{}}
 	f, err := os.Open(path)
 	if err != nil {
 		if os.IsNotExist(err) {
@@ -326,6 +328,16 @@ func ParseContractsFile(path string) (*Contracts, error) {
 			cur, curType = nil, nil
 		case "monotone":
 			cs.Monotone[strings.TrimSpace(rest)] = true
+			cur, curType = nil, nil
+		case "callers":
+			// callers {props} <callee> <func> <func> ...
+			props, r := parseProps(rest)
+			fsx := strings.Fields(r)
+			if len(fsx) < 1 {
+				return nil, fail(fmt.Errorf("usage: callers <callee> <func>..."))
+			}
+			cs.Callers[fsx[0]] = fsx[1:]
+			cs.CallersProps[fsx[0]] = props
 			cur, curType = nil, nil
 		case "writers":
 			// writers {props} <key> <func> <func> ...
